@@ -48,7 +48,8 @@ def gen_inp(rng, allow_ens=True):
     var = {"name": rng.choice(["Temperature", "Precip"]), "units": rng.choice(["C", "mm", "%"]),
            "x0": rng.choice([None, 0.0]), "x1": rng.choice([None, 100.0])}
     inp = gen.make_input(rng, "d", "nc", times, leads, locs, has=has,
-                         thresholds=sorted(rng.sample([-5.0, 0.0, 0.5, 5.0, 10.0], rng.randint(1, 3))) if prob else [],
+                         # 10.1, 25.4, 273.15 are not exact in the float32 threshold coordinate of a NetCDF file
+                         thresholds=sorted(rng.sample([-5.0, 0.0, 0.5, 5.0, 10.0, 10.1, 25.4, 273.15], rng.randint(1, 3))) if prob else [],
                          quantiles=sorted(rng.sample([0.0, 0.1, 0.5, 0.9, 1.0], rng.randint(1, 3))) if prob else [],
                          members=members, others=others, miss=rng.choice([0.0, 0.1, 0.3]), variable=var)
     return inp
@@ -131,12 +132,13 @@ def compare_readers(ctx, a, b, inp, st_nc, case):
                           % (loc, sv["lat"], sv["lon"], va.lat, va.lon, vb.lat, vb.lon), case)
         if sv["altitude"] and (abs(va.elev - vb.elev) > 1e-4 or abs(vb.elev - loc[3]) > 1e-4):
             ctx.violation("location-metadata|elev", "location %s: text elev %s NetCDF elev %s" % (loc, va.elev, vb.elev), case)
-    if sorted(float(x) for x in a.thresholds) != sorted(float(x) for x in b.thresholds) or \
-            sorted(float(x) for x in b.thresholds) != sorted(inp["thresholds"]):
+    def same(u, v):
+        return len(u) == len(v) and all(abs(x - y) <= 1e-6 * max(1.0, abs(y)) for x, y in zip(sorted(u), sorted(v)))
+    # (the NetCDF threshold coordinate is single precision)
+    if not same([float(x) for x in a.thresholds], [float(x) for x in b.thresholds]) or \
+            not same([float(x) for x in b.thresholds], inp["thresholds"]):
         ctx.violation("thresholds-differ", "text %s NetCDF %s" % (sorted(a.thresholds), sorted(b.thresholds)), case)
         return False
-    def same(u, v):
-        return len(u) == len(v) and all(abs(x - y) < 1e-6 for x, y in zip(sorted(u), sorted(v)))
     if not same([float(x) for x in a.quantiles], [float(x) for x in b.quantiles]) or \
             not same([float(x) for x in b.quantiles], inp["quantiles"]):
         ctx.violation("quantiles-differ", "text %s NetCDF %s" % (sorted(a.quantiles), sorted(b.quantiles)), case)
@@ -153,8 +155,8 @@ def compare_readers(ctx, a, b, inp, st_nc, case):
     bti = {float(t): i for i, t in enumerate(b.times)}
     ali = {float(t): i for i, t in enumerate(a.leadtimes)}
     bli = {float(t): i for i, t in enumerate(b.leadtimes)}
-    athr = {float(t): i for i, t in enumerate(a.thresholds)}
-    bthr = {float(t): i for i, t in enumerate(b.thresholds)}
+    athr = {th: min(range(len(a.thresholds)), key=lambda i: abs(float(a.thresholds[i]) - th)) for th in inp["thresholds"]}
+    bthr = {th: min(range(len(b.thresholds)), key=lambda i: abs(float(b.thresholds[i]) - th)) for th in inp["thresholds"]}
     aq = {q: min(range(len(a.quantiles)), key=lambda i: abs(float(a.quantiles[i]) - q)) for q in inp["quantiles"]}
     bq = {q: min(range(len(b.quantiles)), key=lambda i: abs(float(b.quantiles[i]) - q)) for q in inp["quantiles"]}
     arrays = []
